@@ -206,6 +206,8 @@ structure Reg where
 structure Cpu where
   be : Bool := false
   blob : Bytes := []
+  /-- `attr_isset(cpu.N.PRSTATUS)`: false after the blob attribute was cleared -/
+  blobSet : Bool := true
   regs : List Reg := []
   deriving Repr, Inhabited
 
@@ -224,7 +226,8 @@ def okLen (len : Nat) : Bool := len == 1 || len == 2 || len == 4 || len == 8
 
 /-- `derived_attr_revalidate` -/
 def regRevalidate (c : Cpu) (r : Reg) : Status × Reg :=
-  if r.d.off + r.d.len > c.blob.length then (.corrupt, r)
+  if !c.blobSet then (.nodata, r)      -- get_attr_blob: "raw attribute not found"
+  else if r.d.off + r.d.len > c.blob.length then (.corrupt, r)
   else if !okLen r.d.len then (.notimpl, r)
   else (.ok, { r with val := decode c.be ((c.blob.drop r.d.off).take r.d.len) })
 
@@ -257,15 +260,19 @@ def setReg (c : Cpu) (i : Nat) (v : Nat) : Status × Cpu :=
       -- stored with ATTR_PERSIST (invalid = 0); post hook flags it invalid again
       let r1 := { r with val := v, invalid := true }
       let c1 := { c with regs := setNth c.regs i r1 }
-      if r.d.off + r.d.len > c.blob.length then (.corrupt, c1)
+      if !c.blobSet then (.nodata, c1)
+      else if r.d.off + r.d.len > c.blob.length then (.corrupt, c1)
       else if !okLen r.d.len then (.notimpl, c1)
       else (.ok, { c1 with blob := patch c.blob r.d.off (encode c.be r.d.len v) })
 
-def setBlob (c : Cpu) (b : Bytes) : Cpu := { c with blob := b }
+def setBlob (c : Cpu) (b : Bytes) : Cpu := { c with blob := b, blobSet := true }
+
+/-- `clear_attr(cpu.N.PRSTATUS)` -/
+def clearBlob (c : Cpu) : Cpu := { c with blob := [], blobSet := false }
 
 /-- in-place edit through `kdump_blob_pin` -/
 def poke (c : Cpu) (off : Nat) (bs : Bytes) : Option Cpu :=
-  if off + bs.length ≤ c.blob.length then some { c with blob := patch c.blob off bs } else none
+  if c.blobSet ∧ off + bs.length ≤ c.blob.length then some { c with blob := patch c.blob off bs } else none
 
 /-! ## VMCOREINFO -/
 
@@ -290,10 +297,10 @@ def rowsOf (raw : Bytes) : List Row := (splitLines (raw.length + 1) raw).map row
 /-- `b` lies below `a` in the attribute tree: `b = a ++ "." ++ …` -/
 def isDotPrefix (a b : Bytes) : Bool := (a ++ [46]).isPrefixOf b
 
-/-- `lookup_dir_attr`: a leading dot only selects "no fallback" -/
-def stripDot : Bytes → Bytes
-  | 46 :: t => t
-  | k => k
+/-- a key with a leading dot: `create_attr_path` refuses such a path (for
+`lookup_dir_attr` the dot only means "no fallback" and is stripped), and
+`kdump_vmcoreinfo_line/symbol` answer "no such line/symbol" -/
+def leadingDot (k : Bytes) : Bool := k.head? == some 46
 
 abbrev Store (α : Type) := List (Bytes × α)
 
@@ -310,17 +317,17 @@ inductive Slot
   | leaf        -- an existing leaf with this path: overwrite
   | dir         -- the path names a directory
   | fresh       -- can be created
-  | blocked     -- an ancestor is a leaf
+  | blocked     -- an ancestor is a leaf, or the path starts with a dot
   deriving DecidableEq, Repr
 
 /-- outcome of `create_attr_path(dir, k)` on a store of leaves -/
 def slotOf {α} (s : Store α) (k : Bytes) : Slot :=
-  let q := stripDot k
-  if (s.find q).isSome then .leaf
-  else if s.isDir q then .dir
+  if leadingDot k then .blocked
+  else if (s.find k).isSome then .leaf
+  else if s.isDir k then .dir
   else
-    match (dotPrefixes k).find? (fun p => (s.find (stripDot p)).isSome || s.isDir (stripDot p)) with
-    | some p => if (s.find (stripDot p)).isSome then .blocked else .fresh
+    match (dotPrefixes k).find? (fun p => (s.find p).isSome || s.isDir p) with
+    | some p => if (s.find p).isSome then .blocked else .fresh
     | none => .fresh
 
 structure Typed where
@@ -388,10 +395,9 @@ def addRow (c : Ctx) (r : Row) : Out Ctx :=
   match slotOf c.lines r.key with
   | .blocked => .done .system c
   | .dir => .done .invalid c
-  | slot =>
-    let k := if slot = .leaf then stripDot r.key else r.key
-    let same := c.lines.find k == some r.val
-    let c1 := addInst { c with lines := c.lines.put k r.val } "lines"
+  | _ =>
+    let same := c.lines.find r.key == some r.val
+    let c1 := addInst { c with lines := c.lines.put r.key r.val } "lines"
     if same then .done .ok c1 else linesPost c1 r.key r.val
 
 def addRows (c : Ctx) : List Row → Out Ctx
@@ -411,14 +417,16 @@ def clearRaw (c : Ctx) : Ctx := { c with raw := none, lines := [], typed := [] }
 /-- `kdump_vmcoreinfo_line` -/
 def vline (c : Ctx) (k : Bytes) : Status × Bytes :=
   if !c.inst.contains "lines" then (.nodata, [])
-  else match c.lines.find (stripDot k) with
+  else if leadingDot k then (.nodata, [])
+  else match c.lines.find k with
     | some v => (.ok, v)
     | none => (.nodata, [])
 
 /-- `kdump_vmcoreinfo_symbol` -/
 def vsym (c : Ctx) (k : Bytes) : Status × Nat :=
   if !c.inst.contains "SYMBOL" then (.nodata, 0)
-  else match c.typed.find (bytesOf "SYMBOL." ++ stripDot k) with
+  else if leadingDot k then (.nodata, 0)
+  else match c.typed.find (bytesOf "SYMBOL." ++ k) with
     | some t => if t.addr then (.ok, t.val) else (.nodata, 0)
     | none => (.nodata, 0)
 
